@@ -79,11 +79,12 @@ def run(ctx):
             ctx.functions_analysed.add(b.name)
         callers = [c for c in prog.calls_matching(suffix('ArrayImpl::' + fn)) if (c.name or '').endswith('::' + fn)
                    and c.body.root != root]
-        guarded_self = bool(done_sites(prog, prog.bodies[root], 'ops::safen_dividend'))
+        # the guard may sit in the function itself or in a helper it calls first (`let divisor = Self::safe_divisor(..)?`)
+        guarded_self = bool(prog.sites(prog.bodies[root], suffix('ops::safen_dividend'), depth=1))
         if not callers and not guarded_self:
             ctx.ob(R2, f'ArrayImpl::{fn}·zero-guard', False, f'{root} has integer {op} kernels and no caller guards it')
         for c in callers:
-            g = done_sites(prog, c.body, 'ops::safen_dividend')
+            g = prog.sites(c.body, suffix('ops::safen_dividend'), depth=1)
             ok = guarded_self or (bool(g) and c.body.dominated_by_any(set(g), c.bb))
             ctx.ob(R2, f'ArrayImpl::{fn}·zero-guard·{short(c.body.root)}', ok,
                    f'{c.body.name} calls {fn} (integer {op} kernels) ' + ('after' if ok else 'WITHOUT') + ' safen_dividend',
@@ -95,7 +96,9 @@ def run(ctx):
     ctx.rule(R3, 'constant folding (eval_constant) reaches the array kernels only through the entry points the run-time '
                  'evaluator uses (ArrayImpl::binary_op / unary_op / cast): one implementation, so fold == eval')
     ec = prog.body('planner::rules::expr::eval_constant')
-    ev = prog.group('executor::evaluator::Evaluator::<\'a>::eval')
+    # the run-time evaluator: eval and the methods of Evaluator it is split into
+    ev = [g for r in sorted(prog.reach('executor::evaluator::Evaluator::<\'a>::eval', 2)) if r.startswith('executor::evaluator::Evaluator::')
+          for g in prog.group(r)] if 'executor::evaluator::Evaluator::<\'a>::eval' in prog.bodies else []
     if ctx.anchor(R3, 'planner::rules::expr::eval_constant', ec is not None) and ctx.anchor(R3, 'Evaluator::eval', ev):
         def kernels(bodies):
             out = set()
